@@ -299,6 +299,10 @@ impl Schnorr {
         let q = if peer.len() == 32 { g.decode(peer) } else { None };
         let ok = matches!(&q, Some(p) if !g.is_neutral(p));
         let shared = if ok { g.encode(&g.mul(sk, q.as_ref().unwrap())) } else { to_le(sk, 32) };
+        (self.ecdh_kdf(own_pk, peer, if ok { 0x53 } else { 0x46 }, &shared), ok)
+    }
+    /// the key derivation step alone: BLAKE2s(ordered public keys || tag || shared)
+    pub fn ecdh_kdf(&self, own_pk: &[u8], peer: &[u8], tag: u8, shared: &[u8]) -> Vec<u8> {
         let mut m = Vec::new();
         if peer.len() == 32 {
             // lexicographic order of the byte strings, lowest first
@@ -313,9 +317,9 @@ impl Schnorr {
             m.extend_from_slice(own_pk);
             m.extend_from_slice(peer);
         }
-        m.push(if ok { 0x53 } else { 0x46 });
-        m.extend_from_slice(&shared);
-        (h::blake2s(32, &[], &m), ok)
+        m.push(tag);
+        m.extend_from_slice(shared);
+        h::blake2s(32, &[], &m)
     }
 }
 
